@@ -25,6 +25,7 @@ type c14case struct {
 	Ast  *AST   `json:"ast,omitempty"`  // eq
 	Elem *Abs   `json:"elem,omitempty"` // eq: the element the script is matched against
 	Wrap int    `json:"wrap,omitempty"` // eq: 1 = the tree of interest is ast.l (an arithmetic tree compared with a constant)
+	Alt   bool   `json:"alt,omitempty"` // txt: write the regex operator in its other spelling (~=)
 	Items []Item `json:"items,omitempty"` // txt: the script text as items (the TLA+ side derives the intended tree from them)
 }
 
@@ -69,6 +70,9 @@ func renderItems(items []Item) string {
 // runTxt: a script TEXT is parsed (three entry points), printed, parsed again, printed again; both parses are evaluated.
 func runTxt(c *c14case) []*c14event {
 	text := renderItems(c.Items)
+	if c.Alt {
+		text = strings.Replace(text, " =~ ", " ~= ", -1)
+	}
 	elem := c.Elem.Simple()
 	match := func(f func() bool) (r int) {
 		defer func() {
@@ -82,8 +86,15 @@ func runTxt(c *c14case) []*c14event {
 		return 0
 	}
 	type parsed struct {
-		str  func() string
-		eval func() bool
+		str   func() string
+		eval  func() bool
+		shape func() any
+	}
+	filterShape := func(f jp.Frag) any {
+		if ff, ok := f.(*jp.Filter); ok {
+			return shapeOf(&ff.Script)
+		}
+		return noShape
 	}
 	parsers := []struct {
 		form string
@@ -95,26 +106,26 @@ func runTxt(c *c14case) []*c14event {
 			if err != nil {
 				return nil, err
 			}
-			return &parsed{y.String, func() bool { return len(y.Get([]any{elem})) == 1 }}, nil
+			return &parsed{y.String, func() bool { return len(y.Get([]any{elem})) == 1 }, func() any { return filterShape(y[len(y)-1]) }}, nil
 		}},
 		{"NewFilter", "[?(" + text + ")]", func(s string) (*parsed, error) {
 			f, err := jp.NewFilter(s)
 			if err != nil {
 				return nil, err
 			}
-			return &parsed{f.String, func() bool { return len(jp.Expr{jp.Root('$'), f}.Get([]any{elem})) == 1 }}, nil
+			return &parsed{f.String, func() bool { return len(jp.Expr{jp.Root('$'), f}.Get([]any{elem})) == 1 }, func() any { return shapeOf(&f.Script) }}, nil
 		}},
 		{"NewScript", "(" + text + ")", func(s string) (*parsed, error) {
 			sc, err := jp.NewScript(s)
 			if err != nil {
 				return nil, err
 			}
-			return &parsed{sc.String, func() bool { return sc.Match(elem) }}, nil
+			return &parsed{sc.String, func() bool { return sc.Match(elem) }, func() any { return shapeOf(sc) }}, nil
 		}},
 	}
 	var evs []*c14event
 	for _, ps := range parsers {
-		ev := &c14event{K: "txt", Cell: c.Cell, Form: ps.form, Elem: c.Elem, Mo: -1, Mr: -1, Case: c, S1: []int{}, S2: []int{}, Eo: []string{}, Er: []string{}, Eos: []string{}, Ers: []string{}}
+		ev := &c14event{K: "txt", Cell: c.Cell, Form: ps.form, Elem: c.Elem, Mo: -1, Mr: -1, Case: c, S1: []int{}, S2: []int{}, Eo: []string{}, Er: []string{}, Eos: []string{}, Ers: []string{}, To: noShape, Tr: noShape}
 		p1, err := ps.p(ps.src)
 		if err != nil {
 			ev.Perr, ev.Pmsg = 1, clip("text: "+err.Error())
@@ -124,6 +135,7 @@ func runTxt(c *c14case) []*c14event {
 		}
 		s1, perr := safeStr(p1.str)
 		ev.S1 = ints(s1)
+		ev.To = p1.shape()
 		ev.Mo = match(p1.eval)
 		ev.Eo = []string{fmt.Sprint(ev.Mo)}
 		ev.Eos = ev.Eo
@@ -134,6 +146,7 @@ func runTxt(c *c14case) []*c14event {
 		} else {
 			s2, _ := safeStr(p2.str)
 			ev.S2 = ints(s2)
+			ev.Tr = p2.shape()
 			ev.Mr = match(p2.eval)
 			ev.Er = []string{fmt.Sprint(ev.Mr)}
 			ev.Ers = ev.Er
@@ -160,8 +173,12 @@ type c14event struct {
 	Same bool     `json:"same"` // the re-parsed expression is structurally identical to the original (reflect.DeepEqual)
 	Eos  []string `json:"eos"`  // distinct results of evaluating the original several times (Get may depend on map order)
 	Ers  []string `json:"ers"`  // the same for the re-parsed expression
+	To   any      `json:"to"` // structure of the original script's program (shapeOf), {"op":"?"} when not available
+	Tr   any      `json:"tr"` // the same for the re-parsed script
 	Case *c14case `json:"case"`
 }
+
+var noShape = map[string]any{"op": "?"}
 
 var keyUniverse = []struct{ cls, key string }{
 	{"plain", "a"}, {"empty", ""}, {"quote", "a'b"}, {"dquote", "a\"b"}, {"backslash", "a\\b"}, {"control", "a\nb"}, {"ctl01", "a\x01b"},
@@ -235,7 +252,7 @@ func safeStr(f func() string) (s string, perr string) {
 func runC14(c *c14case) []*c14event {
 	var evs []*c14event
 	mk := func(form string) *c14event {
-		return &c14event{K: c.K, Cell: c.Cell, Form: form, Ast: c.Ast, Elem: c.Elem, Mo: -1, Mr: -1, Case: c, S1: []int{}, S2: []int{}, Eo: []string{}, Er: []string{}, Eos: []string{}, Ers: []string{}}
+		return &c14event{K: c.K, Cell: c.Cell, Form: form, Ast: c.Ast, Elem: c.Elem, Mo: -1, Mr: -1, Case: c, S1: []int{}, S2: []int{}, Eo: []string{}, Er: []string{}, Eos: []string{}, Ers: []string{}, To: noShape, Tr: noShape}
 	}
 	if c.K == "path" {
 		var x jp.Expr
@@ -307,6 +324,7 @@ func runC14(c *c14case) []*c14event {
 			s1, perr = safeStr(func() string { return jp.R().F(c.Ast.Build()).String() })
 		}
 		ev.S1 = ints(s1)
+		ev.To = shapeOf(c.Ast.Build().Script())
 		ev.Mo = match(func() bool { return c.Ast.Build().Script().Match(elem) })
 		ev.Eo = []string{fmt.Sprint(ev.Mo)}
 		ev.Eos = ev.Eo
@@ -317,23 +335,32 @@ func runC14(c *c14case) []*c14event {
 		}
 		var s2 string
 		var re func() bool
+		var reShape func() any
 		var err error
 		switch form {
 		case "Equation.String":
 			var e2 *jp.Equation
 			s2, perr = safeStr(func() string { e2 = jp.MustParseEquation(s1); return e2.String() })
 			re = func() bool { return e2.Script().Match(elem) }
+			reShape = func() any { return shapeOf(e2.Script()) }
 		case "Script.String":
 			var sc *jp.Script
 			if sc, err = jp.NewScript(s1); err == nil {
 				s2 = sc.String()
 				re = func() bool { return sc.Match(elem) }
+				reShape = func() any { return shapeOf(sc) }
 			}
 		default:
 			var y jp.Expr
 			if y, err = jp.ParseString(s1); err == nil {
 				s2 = y.String()
 				re = func() bool { return len(y.Get([]any{elem})) == 1 }
+				reShape = func() any {
+					if ff, ok := y[len(y)-1].(*jp.Filter); ok {
+						return shapeOf(&ff.Script)
+					}
+					return noShape
+				}
 			}
 		}
 		if err != nil {
@@ -342,6 +369,7 @@ func runC14(c *c14case) []*c14event {
 			ev.Perr, ev.Pmsg = 1, perr
 		} else {
 			ev.S2 = ints(s2)
+			ev.Tr = reShape()
 			ev.Mr = match(re)
 			ev.Er = []string{fmt.Sprint(ev.Mr)}
 			ev.Ers = ev.Er
@@ -565,6 +593,55 @@ func genC14(tier string, n int, seed int64) {
 	for _, p := range []string{"a", "^a.", "a/b", "a\\.b", "(?i)A"} {
 		regexp.MustCompile(p)
 		emit(&c14case{K: "eq", Cell: "const(rx " + p + ")", Ast: &AST{Op: "=~", L: pth("@"), R: &AST{Op: "const", V: &Abs{T: "rx", P: ints(p)}}}, Elem: absOf("a/b")})
+	}
+	// regex constants with k backslashes before a slash: built (three String() forms) and as text in both spellings,
+	// each on every string of the universe that tells the patterns apart (Go regexp facts in rx.ndjson)
+	for _, p := range slashPatterns {
+		regexp.MustCompile(p)
+		rxc := &AST{Op: "const", V: &Abs{T: "rx", P: ints(p)}}
+		for _, str := range slashStrings {
+			el := absOf(str)
+			emit(&c14case{K: "eq", Cell: "const(rx " + p + ")", Ast: &AST{Op: "=~", L: pth("@"), R: rxc}, Elem: el})
+			for _, alt := range []bool{false, true} {
+				emit(&c14case{K: "txt", Cell: "text const(rx " + p + ")", Alt: alt, Elem: el,
+					Items: []Item{{K: "atom", T: pth("@")}, {K: "op", O: "=~"}, {K: "atom", T: rxc}}})
+			}
+		}
+	}
+	// right- and left-nested operands of EQUAL precedence, as text (built trees: the triples above): w P (x Q y), (x Q y) P w
+	for _, p := range tops {
+		for _, q := range tops {
+			if precOf(p) != precOf(q) {
+				continue
+			}
+			for v := 0; v < 3; v++ {
+				grp := Item{K: "grp", G: []Item{atomFor(q, v, 0), opI(q), atomFor(q, v, 1)}}
+				w := atomFor(p, v, 2)
+				for _, items := range [][]Item{{w, opI(p), grp}, {grp, opI(p), w}} {
+					cell := "text parent=" + p + " inner=" + q + " equal precedence"
+					if precOf(p) <= 2 {
+						for _, k := range []int64{1, 3} {
+							emit(&c14case{K: "txt", Cell: cell + " cmp", Elem: null, Items: append(append([]Item{}, items...), opI("<"), Item{K: "atom", T: ival(k)})})
+						}
+					} else {
+						emit(&c14case{K: "txt", Cell: cell, Elem: null, Items: items})
+					}
+				}
+			}
+		}
+	}
+	// association made visible by rounding: (0.1 + 0.2) + 0.3 != 0.1 + (0.2 + 0.3) in float64 (only original vs re-parsed is
+	// compared on these, the model does not do binary floating point)
+	fl := func(f float64) *AST { return &AST{Op: "const", V: absOf(f)} }
+	for _, p := range []string{"+", "*", "-", "/"} {
+		for _, q := range []string{"+", "*", "-", "/"} {
+			for _, k := range []float64{0.6, 0.6000000000000001, 0.006, 0.006000000000000001, 0.0, 1.5} {
+				emit(&c14case{K: "eq", Cell: "parent=" + p + " child=" + q + " side=right float", Wrap: 1, Elem: null,
+					Ast: &AST{Op: "==", L: &AST{Op: p, L: fl(0.1), R: &AST{Op: q, L: fl(0.2), R: fl(0.3)}}, R: fl(k)}})
+				emit(&c14case{K: "eq", Cell: "parent=" + p + " child=" + q + " side=left float", Wrap: 1, Elem: null,
+					Ast: &AST{Op: "==", L: &AST{Op: p, L: &AST{Op: q, L: fl(0.1), R: fl(0.2)}, R: fl(0.3)}, R: fl(k)}})
+			}
+		}
 	}
 	for _, fn := range []string{"length", "count"} {
 		emit(&c14case{K: "eq", Cell: "func " + fn, Ast: &AST{Op: "==", L: &AST{Op: fn, L: pth("@", "*")}, R: ival(2)}, Elem: absOf([]any{int64(1), int64(2)})})
